@@ -61,6 +61,47 @@ func ruleSRTPendingCue(p *Prog, l *Ledger, tier string) {
 	}
 	inIter, afterIter, inAny := 0, 0, 0
 	var posIn, posAfter string
+	// a helper called for the pending cue that cuts its Lines in a loop of its own (the call is a
+	// statement: the helper works through the *Item it receives)
+	for _, h := range p.Helpers(fn) {
+		if h == fn || fnPkg(h) != p.LibSSA {
+			continue
+		}
+		hl := loopsOf(h)
+		for _, hb := range h.Blocks {
+			for _, ins := range hb.Instrs {
+				st, ok := ins.(*ssa.Store)
+				if !ok {
+					continue
+				}
+				if t, f := fieldOfAddr(st.Addr); t != "Item" || f != "Lines" {
+					continue
+				}
+				if sl, ok := st.Val.(*ssa.Slice); !ok || sl.High == nil {
+					continue
+				}
+				inLoop := false
+				for _, li := range hl {
+					if li.blocks[hb] {
+						inLoop = true
+					}
+				}
+				site := p.siteIn(fn, st)
+				if site == nil || !inLoop {
+					continue
+				}
+				switch {
+				case main.blocks[site.Block()]:
+					inAny++
+					inIter++
+					posIn = p.Pos(st.Pos())
+				case after[site.Block()]:
+					afterIter++
+					posAfter = p.Pos(st.Pos())
+				}
+			}
+		}
+	}
 	for _, b := range fn.Blocks {
 		for _, ins := range b.Instrs {
 			st, ok := ins.(*ssa.Store)
